@@ -12,7 +12,7 @@
    (the known deviation, findings.txt).  [one_run p]: all '*' of the pattern are adjacent. *)
 From Coq Require Import Lia.
 From GixV.Base Require Import Bytes BytesFacts Outcome.
-From GixV.C36 Require Import Model Spec ProofsBytes ProofsBracket ProofsMain ProofsEarly ProofsTop.
+From GixV.C36 Require Import Model Spec ProofsBytes ProofsBracket ProofsMain ProofsEarly ProofsTop ProofsShortcut.
 
 (* The full statement of the property (proved below for one-run patterns; for the others up to the
    early exit of git's star loop, see wildmatch_is_git_modulo_early_exit_partial). *)
@@ -56,6 +56,23 @@ Theorem wildmatch_is_git_star_free : forall cf pn p t,
   wildmatch cf pn p t = git_wildmatch cf pn p t.
 Proof. exact L_star_free. Qed.
 
+(* Pattern::matches: the parser stores the first wildcard position of the text it returns; without a
+   wildcard the comparison shortcut is what wildmatch computes; with one, outside the `*literal`
+   shortcut, the literal-prefix test never changes the answer of wildmatch.  (The `*literal` suffix
+   shortcut is tested only.) *)
+Theorem parsed_pattern_wildcard_pos : forall pat pt,
+  parse_pattern pat = Some pt -> pfwp pt = first_wildcard_pos (ptext pt).
+Proof. exact parse_fwp. Qed.
+Theorem matches_shortcut_no_wildcard : forall pt cf pn value,
+  pfwp pt = first_wildcard_pos (ptext pt) -> pfwp pt = None ->
+  pattern_matches pt cf pn value = wildmatch cf pn (ptext pt) value.
+Proof. exact L_no_wildcard. Qed.
+Theorem matches_shortcut_literal_prefix : forall pt cf pn value pos,
+  pfwp pt = first_wildcard_pos (ptext pt) -> pfwp pt = Some pos ->
+  has_flag (pmode pt) ENDS_WITH && (negb pn || negb (has_slash value)) = false ->
+  pattern_matches pt cf pn value = wildmatch cf pn (ptext pt) value.
+Proof. exact L_prefix_shortcut. Qed.
+
 (* the known deviation is real: with case folding, `[A]` matches `a` in gix only, `[@-a]` matches
    `x` in git only *)
 Theorem wildmatch_is_git_refuted_icase : exists p t, nul_free p = true /\ stars p = 0 /\
@@ -81,6 +98,11 @@ Example hyps_satisfiable_one_run :
   nul_free p = true /\ known_icase true p = false /\ stars p < RECURSION_LIMIT /\ one_run p /\
   wildmatch true true p (bs "SRC/x/y/ab.RS") = true /\ git_wildmatch true true p (bs "SRC/x/y/ab.RS") = true.
 Proof. vm_compute. repeat split; lia. Qed.
+Example shortcut_hyps_satisfiable :
+  exists pt, parse_pattern (bs "/src/a?c") = Some pt /\ pfwp pt = Some 5 /\
+             has_flag (pmode pt) ENDS_WITH && (negb true || negb (has_slash (bs "src/abc"))) = false /\
+             pattern_matches pt false true (bs "src/abc") = true.
+Proof. exists {| ptext := bs "src/a?c"; pmode := 16%N; pfwp := Some 5%nat |}. vm_compute. repeat split; reflexivity. Qed.
 Example star_free_example :
   wildmatch false true (bs "[[:digit:]]?\*[!a-c]") (bs "7x*d") = true /\
   git_wildmatch false true (bs "[[:digit:]]?\*[!a-c]") (bs "7x*d") = true.
